@@ -288,3 +288,32 @@ M("c02-silent-float", "C02", LRC, "                return 1.0 / feature_count\n"
 M("c02-silent-hoist", "C02", LRC, "            for feature_id in feature_ids:\n                count_value = self.read_counter.process_ambiguous(len(feature_ids))\n                self.feature_counter[feature_id].inc(group_id, count_value)",
   "            count_value = self.read_counter.process_ambiguous(len(feature_ids))\n            for feature_id in feature_ids:\n                self.feature_counter[feature_id].inc(group_id, count_value)",
   expect="silent", note="hoist the weight out of the loop")
+
+# ---------------------------------------------------------------- C14
+ECM = "src/exon_corrector.py"
+M("c14-unflagged-terminal", "C14", ECM, "            elif event.event_type == MatchEventSubtype.terminal_exon_misalignment_left and \\\n                    self.params.correct_terminal_exons:",
+  "            elif event.event_type == MatchEventSubtype.terminal_exon_misalignment_left:", rule="B1",
+  note="terminal exon restored without its flag")
+M("c14-none-row-true", "C14", "isoquant.py", "        'none': SplicSiteCorrectionStrategy(False, False, False, False, False, False),",
+  "        'none': SplicSiteCorrectionStrategy(False, False, True, False, False, False),", rule="B1", note="preset none enables a correction")
+M("c14-microintron-key-unflagged", "C14", ECM, "                if e.event_type == MatchEventSubtype.fake_micro_intron_retention and \\\n                        self.params.correct_microintron_retention:",
+  "                if e.event_type == MatchEventSubtype.fake_micro_intron_retention:", rule="B1",
+  note="store side of the -k-1 key idiom loses its flag (the use site looks unchanged)")
+M("c14-misalignment-set-unflagged", "C14", ECM, "            if self.params.correct_skipped_exons:\n                misalignment_set.append(MatchEventSubtype.exon_misalignment)",
+  "            misalignment_set.append(MatchEventSubtype.exon_misalignment)", rule="B1",
+  note="insertion into the guard list loses its flag")
+M("c14-wrong-side", "C14", ECM, "                    left_site = read_intron[0] if indel_count == 0 and mm_count <= 1 else ref_intron[0]",
+  "                    left_site = read_intron[0] if indel_count == 0 and mm_count <= 1 else ref_intron[1]", rule="B2",
+  note="left site takes the annotated right site")
+M("c14-region-both-ends", "C14", ECM, "                corrected_read_region = (isoform_region[0], corrected_read_region[1])",
+  "                corrected_read_region = (isoform_region[0], isoform_region[1])", rule="B2", note="left event also moves the right end")
+M("c14-bed-off-by-one", "C14", "src/assignment_io.py", "                            \",\".join([str(e[1] - e[0] + 1) for e in exon_blocks]),",
+  "                            \",\".join([str(e[1] - e[0]) for e in exon_blocks]),", rule="B3", note="block size off by one")
+M("c14-bed-chromstart", "C14", "src/assignment_io.py", "                           (chr_id, exon_blocks[0][0] - 1, exon_blocks[-1][1],", "                           (chr_id, exon_blocks[0][0], exon_blocks[-1][1],",
+  rule="B3", note="chromStart not converted to 0-based")
+M("c14-fuzzy-else-annot", "C14", ECM, "        else:\n            corrected_introns = read_introns\n", "        else:\n            corrected_introns = self.intron_profile_constructor.match_genomic_features(read_introns)\n",
+  rule="B1", note="without the flag, introns are silently snapped to annotated ones")
+M("c14-silent-reorder-sum", "C14", "src/assignment_io.py", "                            \",\".join([str(e[1] - e[0] + 1) for e in exon_blocks]),",
+  "                            \",\".join([str(1 + e[1] - e[0]) for e in exon_blocks]),", expect="silent", note="arithmetic reordered")
+M("c14-silent-nested-if", "C14", ECM, "            if event.event_type == MatchEventSubtype.fake_terminal_exon_left and \\\n                    self.params.correct_fake_terminal_exons:",
+  "            if self.params.correct_fake_terminal_exons and \\\n                    event.event_type == MatchEventSubtype.fake_terminal_exon_left:", expect="silent", note="conjuncts swapped")
